@@ -600,6 +600,11 @@ func Eq(a, b *Term) *Term {
 		if ba == bb && ba != nil {
 			return Bool(oa == ob)
 		}
+		if ba != nil && bb != nil && farFacts != nil {
+			if n, ok := farFacts[[2]*Term{ba, bb}]; ok && oa < n && ob < n {
+				return FalseT
+			}
+		}
 	}
 	if a.op == OpConst {
 		a, b = b, a
@@ -630,6 +635,10 @@ func Eq(a, b *Term) *Term {
 	}
 	return mk(OpEq, 0, 0, "", a, b)
 }
+// farFacts: pairs of base terms assumed (in the current path condition) to be at least n
+// bytes apart, without wrap-around; lets address comparisons of two regions fold.
+var farFacts map[[2]*Term]uint64
+
 func Ne(a, b *Term) *Term { return BNot(Eq(a, b)) }
 
 // splitBase views t as base+offset (base nil for constants).
